@@ -62,6 +62,37 @@ theorem non_tls_traffic_is_plain_insecure (k : Nat) (s' : St) (it : Item)
   rw [h1, h2] at this
   exact mem_run_of_at? sd base {} 0 [] items k s' it h _ (by simpa using this)
 
+/-- Transparent TLS listener: the connection is decrypted from its first byte, so every request on it
+- the first included - is https, on a secure session, with TLS state attached. -/
+theorem transparent_tls_listener_every_request_secure (k : Nat) (s' : St) (it : Item)
+    (h : at? sd base tlsListenerState 0 items k = some (s', it)) :
+    Ev.reqmod k (base + k) true true true ∈ runConnOn tlsListenerState sd base items := by
+  have inv : ∀ (l : List Item) (s : St) (i : Nat), s.connTls = true → at? sd base s i l k = some (s', it) →
+      s'.connTls = true := by
+    intro l
+    induction l with
+    | nil => intro s i _ h; simp [at?] at h
+    | cons x rest ih =>
+      intro s i hs h
+      simp only [at?] at h
+      by_cases hk : k = i
+      · simp only [hk, if_true, Option.some.injEq, Prod.mk.injEq] at h; obtain ⟨rfl, _⟩ := h; exact hs
+      · simp only [hk, if_false] at h
+        split at h
+        · rename_i s2 heq
+          refine ih s2 (i + 1) ?_ h
+          revert heq
+          item_cases x then
+            (first
+              | (intro heq; subst heq; simp [*])
+              | (intro heq; split at heq <;> first | contradiction | (injection heq with heq; subst heq; simp [*]))
+              | skip)
+        · simp at h
+  have hc := inv items tlsListenerState 0 rfl h
+  have := reqmod_reflects_state sd s' k (base + k) it
+  rw [hc] at this
+  exact mem_run_of_at? sd base tlsListenerState 0 [] items k s' it h _ (by simpa using this)
+
 /-- The CONNECT request itself is answered 200 through the response modifier and the loop goes on on
 the same connection (same session): the machine stays in `again`. -/
 theorem connect_then_tunnel_same_connection (s : St) (i c : Nat) (tls : Bool) :
